@@ -65,6 +65,11 @@ pub fn run(prop: &str, leg: &str, ctx: &Ctx, rep: &mut Report) -> bool {
             rep.require("cold_start_processes", 60);
         }
         ("C02", "cold-start") => c02::cold_start(ctx, rep),
+        ("C09", "cold-start") => {
+            cold::parent(ctx, "C09", &["sampler-blocks"], &[1], ctx.sz(1000, 8000), &|_| vec![], rep);
+            rep.require("cold_start_processes", 60);
+        }
+        ("C01", "cold-start") => c01::cold_start(ctx, rep),
         ("C01", "matrix") => c01::matrix(ctx, rep),
         ("C01", "native") => c01::native(ctx, rep),
         ("C01", "concurrent") => c01::concurrent(ctx, rep),
